@@ -432,7 +432,10 @@ def run_field(md, ftype, nsteps, seed, tid, minimiser="newton"):
 
 # ----------------------------------------------------------------------------- planning
 def materials(rng):
-    return dict(E=round(10 ** rng.uniform(0, 2), 6), nu=round(rng.uniform(0.0, 0.4), 6), rho=round(10 ** rng.uniform(-0.3, 0.7), 6))
+    # every third model is very stiff (wave speeds ~1e6..1e7): its natural periods, and hence the time steps
+    # dt = dt_spec / omega of the replayed behaviours, fall well below 1e-6
+    stiff = 10.0 ** rng.choice([0, 0, 12])
+    return dict(E=round(10 ** rng.uniform(0, 2), 6) * stiff, nu=round(rng.uniform(0.0, 0.4), 6), rho=round(10 ** rng.uniform(-0.3, 0.7), 6))
 
 
 def plan_models(tier, rng):
